@@ -2,6 +2,9 @@
 // and the same assumed models compiled by g++ with ASan+UBSan; the contract's specification (contract.c) is re-evaluated on the
 // counterexample's inputs.  Oracle = the property-level clauses only (ensures: texts), no exact-behaviour pins.
 #define CV_NATIVE 1
+#if __has_include("ccpack_ok.h")
+#include "ccpack_ok.h"      // written by gen.py when the packInto slice resolved: #define CV_PACK 1
+#endif
 #include "replay.h"
 static const char *g_fail = nullptr;
 extern "C" void cv_native_fail(const char *txt) { if (!g_fail) g_fail = txt; printf("  violated: %s\n", txt); }
@@ -14,6 +17,33 @@ static const char *tname(int t)
                               "s-maxage", "max-stale", "min-fresh", "only-if-cached", "stale-if-error", "immutable", "<unknown>"};
     return (t >= 0 && t <= 14) ? n[t] : "?";
 }
+
+#ifdef CV_PACK
+static int replay_pack(const Cex &c)
+{
+    long st[ST_COUNT] = {0};
+    auto v = c.arr("st");
+    for (size_t i = 0; i < v.size() && i < ST_COUNT; ++i) st[i] = (long)v[i];
+    for (int i = 0; i <= ST_MIN_FRESH; ++i)
+        if (st[i] < -2147483647L - 1 || st[i] > 2147483647L) RP_OK("input outside the harness domain");
+    for (int i = ST_PRIV_LEN; i <= ST_OTHER_LEN; ++i)
+        if (st[i] < 0 || st[i] > 65535) RP_OK("input outside the harness domain");
+    static struct evlog got, want;
+    got.n = cc_pack(st, got.kind, got.sep, got.a, got.which);
+    spec_pack(st, &want);
+    printf("state: mask=0x%lx max-age=%ld s-maxage=%ld max-stale=%ld stale-if-error=%ld min-fresh=%ld |private_|=%ld |no_cache|=%ld |other|=%ld\n",
+           st[0] & 0xffffffffL, st[1], st[2], st[3], st[4], st[5], st[6], st[7], st[8]);
+    static const char *kinds[] = {"-", "name", "=int", "=\"list\"", "unknown-directives"};
+    for (int i = 0; i < got.n || i < want.n; ++i) {
+        const bool same = i < got.n && i < want.n && got.kind[i] == want.kind[i] && got.sep[i] == want.sep[i] && got.a[i] == want.a[i] && got.which[i] == want.which[i];
+        printf("  piece %2d: printed %s%s %ld   expected %s%s %ld%s\n", i, i < got.n && got.sep[i] ? ", " : "", i < got.n ? kinds[got.kind[i] & 7 ? (got.kind[i] <= 4 ? got.kind[i] : 0) : 0] : "(none)",
+               i < got.n ? got.a[i] : 0, i < want.n && want.sep[i] ? ", " : "", i < want.n ? kinds[want.kind[i]] : "(none)", i < want.n ? want.a[i] : 0, same ? "" : "   <-- differs");
+        if (!same) g_fail = "packInto printed a different sequence of pieces than the directives set";
+    }
+    if (g_fail) RP_FAIL("%s", g_fail);
+    RP_OK("packInto printed exactly the expected pieces");
+}
+#endif
 
 template<class T> static void fill(const Cex &c, const char *key, T *dst, size_t cap)
 {
